@@ -38,6 +38,7 @@ func CreateBackends(shardCount int) *Backends {
 		authBackends:  map[string]*Backend{},
 		shards:        shards,
 		changedShards: map[int]bool{},
+		clearedShards: map[int]bool{},
 	}
 }
 
@@ -65,6 +66,7 @@ func (b *Backends) Clear() {
 			// to be updated (removed or cleaned) in the case the new
 			// state doesn't add any backend to it.
 			nb.backendShardChanged(i)
+			nb.clearedShards[i] = true
 		}
 	}
 	nb.itemsDel = b.items
@@ -99,6 +101,11 @@ func (b *Backends) Shrink() {
 	// was changed.
 	if changed {
 		b.changedShards = map[int]bool{}
+		for shard := range b.clearedShards {
+			// shards flagged by Clear() are written despite of the state of their
+			// backends, globals that are also part of the backend shards might have changed
+			b.backendShardChanged(shard)
+		}
 		for _, back := range b.itemsAdd {
 			b.BackendChanged(back)
 		}
@@ -149,6 +156,7 @@ func (b *Backends) Commit() {
 	b.itemsAdd = map[string]*Backend{}
 	b.itemsDel = map[string]*Backend{}
 	b.changedShards = map[int]bool{}
+	b.clearedShards = map[int]bool{}
 }
 
 // Changed ...
